@@ -40,6 +40,28 @@ Theorem C06_array_run :
 Proof. exact CC.Array.ArrayRefine.arr_run_refines. Qed.
 Print Assumptions C06_array_run.
 
+(** CC_Array: the constructor over EVERY machine-word capacity (since fix 9e3425e a capacity whose byte size overflows is refused; before, capacity 2^61 gave a 0-byte buffer) *)
+Theorem C06_array_new_total :
+  forall (mem : tag) (capacity num den : N) (al : alloc_st) (st : stat) (r : option arr)
+           (al' : alloc_st),
+         ledger_wf al ->
+         0 < den ->
+         ArrayModel.arr_new mem capacity num den al = (st, r, al') ->
+         match r with
+         | Some a =>
+             st = CC_OK /\
+             a_data a = [] /\
+             a_cap a = capacity /\
+             ArrayProofs.arr_inv a al' /\
+             a_mem a = mem /\
+             capacity * 8 < W /\
+             (a_num a, a_den a) =
+             (if num <=? den then (DEFAULT_EXPANSION_FACTOR_num, DEFAULT_EXPANSION_FACTOR_den) else (num, den))
+         | None => st = CC_ERR_INVALID_CAPACITY /\ al' = al \/ st = CC_ERR_ALLOC /\ live al' = live al
+         end.
+Proof. exact CC.Array.ArrayRefine.arr_new_total. Qed.
+Print Assumptions C06_array_new_total.
+
 (** CC_Array: destroy releases header and buffer, nothing else *)
 Theorem C06_array_destroy :
   forall (a : arr) (al : alloc_st),
@@ -117,6 +139,29 @@ Theorem C06_pqueue_no_fault :
          (forall (f : fault) (fuel : nat), pq_size s <= N.of_nat fuel -> pq_drain cmp fuel s <> Fault f).
 Proof. exact CC.PQueue.PQueueProofs2.pqT_fuel_suffices. Qed.
 Print Assumptions C06_pqueue_no_fault.
+
+(** CC_PQueue: the constructor never faults, whatever the capacity and factor *)
+Theorem C06_pqueue_new_no_fault :
+  forall (mem : tag) (c n d : N) (a : alloc_st) (f : fault), pq_new mem c n d a <> Fault f.
+Proof. exact CC.PQueue.PQueueProofs2.pq_new_no_fault. Qed.
+Print Assumptions C06_pqueue_new_no_fault.
+
+(** CC_PQueue: every history from the constructor, with no assumption on the capacity's byte size *)
+Theorem C06_pqueue_new_total :
+  forall cmp : N -> N -> Z,
+         (forall a b : N, (cmp a b >= 0)%Z \/ (cmp b a >= 0)%Z) ->
+         (forall a b c : N, (cmp a b >= 0)%Z -> (cmp b c >= 0)%Z -> (cmp a c >= 0)%Z) ->
+         (forall a b : N, (cmp a b > 0)%Z <-> (cmp b a < 0)%Z) ->
+         forall (mem : tag) (c n d : N) (a : alloc_st) (st : stat) (s : pq) (a' : alloc_st) (ops : list pq_op),
+         limit a < W - 16 ->
+         limit a * fst (pq_factor n d) < W * snd (pq_factor n d) ->
+         0 < d ->
+         pq_new mem c n d a = Ok (st, Some s, a') ->
+         exists (outs : list pq_out) (s' : pq) (a'' : alloc_st),
+           pq_run cmp s a' ops = Ok (outs, s', a'') /\
+           pq_inv cmp (limit a) s' /\ pq_led (limit a) (live a) s' a'' /\ bag_run cmp [] ops outs (pq_abs s').
+Proof. exact CC.PQueue.PQueueProofs2.pq_new_run_refines_total. Qed.
+Print Assumptions C06_pqueue_new_total.
 
 (** CC_PQueue: destroy after any history; destroy_cb calls the callback once per element *)
 Theorem C06_pqueue_destroy :
